@@ -13,4 +13,7 @@ INVARIANT TimesThree
 INVARIANT BaseConstant
 INVARIANT RestoreReturnsPrevious
 INVARIANT EdgesRoundTrip
+INVARIANT EdgesScaleRoundTrip
+INVARIANT AddEdgesClearsFlags
+INVARIANT HalvesCombine
 CHECK_DEADLOCK FALSE
